@@ -721,6 +721,8 @@ pub struct RunStats {
     pub jump_with_runnable: u64,
     pub interleaving_hash: u64,
     pub max_concurrent_inflight: u32,
+    /// ordered pairs (where the preempted thread stood, where the thread switched to stood)
+    pub switch_pairs: BTreeSet<u32>,
 }
 
 pub struct Sim {
@@ -878,6 +880,9 @@ impl Sim {
         }
         if self.last_actor != Some(i) && self.last_actor.is_some() {
             self.stats.switches += 1;
+            let from = self.stop_code(self.last_actor.unwrap());
+            let to = self.stop_code(i);
+            let _ = self.stats.switch_pairs.insert(((from as u32) << 16) | to as u32);
         }
         self.last_actor = Some(i);
         match res {
@@ -1210,6 +1215,16 @@ impl Sim {
             }
         }
         Err(None)
+    }
+
+    /// Where an actor currently stands: site index, or a code for pending / boundary / other.
+    fn stop_code(&self, a: usize) -> u16 {
+        match self.actors[a].last_yield {
+            Some(Yield::Point(s)) | Some(Yield::LockBusy(s)) => site_index(s).map(|i| i as u16).unwrap_or(0xfff0),
+            Some(Yield::Pending) => 0xfffe,
+            Some(Yield::Boundary) => 0xfffd,
+            None => 0xfffc,
+        }
     }
 
     pub fn pending_actors(&self) -> Vec<usize> {
